@@ -55,6 +55,7 @@ def _trim(o, n=2000):
     return {"_truncated": s[:n]}
 
 
+_CONFIRMED = {}
 WATCHDOG = __import__("re").compile(r"hang|no-termination|[Tt]imeout|harness-error|does not converge|step")
 
 
@@ -64,6 +65,8 @@ def _confirm(prop, hit):
     monitor reports the same key again."""
     if not hit.get("stream") or "case" not in hit or not WATCHDOG.search(hit.get("key", "") + " " + hit.get("what", "")[:80]):
         return hit
+    if _CONFIRMED.get((prop, hit["stream"]), 0) >= 2:
+        return hit          # two watchdog hits of this stream already recurred with generous limits: the limits are not the cause
     sm = C.load_stream(hit["stream"])
     env = dict(getattr(sm, "ENV", None) or {})
     env["VERIF_CASE_TIMEOUT"] = str(5 * int(env.get("VERIF_CASE_TIMEOUT", "20")))
@@ -76,6 +79,7 @@ def _confirm(prop, hit):
     if not again:
         print(f"[{prop}] note: {hit['key']} did not recur with generous limits (harness limit, not a violation)")
         return None
+    _CONFIRMED[(prop, hit["stream"])] = _CONFIRMED.get((prop, hit["stream"]), 0) + 1
     return dict(hit, obs=_trim(obs), what=again[0].get("what", hit["what"]) + " [confirmed with 5x time and 20x step limits]")
 
 
